@@ -191,6 +191,10 @@ class Compiler:
             else:
                 env[p] = ("v", f"{frame}.{p}")
                 pre.append((f"{frame}.{p}", v))
+        if fdef.args.vararg is not None:
+            env[fdef.args.vararg.arg] = ("tuple", list(args[len(params):]))
+        elif len(args) > len(params):
+            raise Unsupported(f"too many arguments for {qual}")
         inner = Ctx(self, frame, env, k, ctx.handlers, [], ctx.finallies)
         inner.qual = qual
         body = self.stmts(fdef.body, inner, lambda: k(("c", None)))
@@ -618,7 +622,11 @@ class Compiler:
             if i == len(e.args):
                 return eval_kw(0, acc, {})
             if isinstance(e.args[i], ast.Starred):
-                raise Unsupported("star args")
+                def spread(r):
+                    if r[0] != "tuple":
+                        raise Unsupported("star args of a dynamic sequence")
+                    return eval_args(i + 1, acc + list(r[1]))
+                return self.expr(e.args[i].value, ctx, spread)
             return self.expr(e.args[i], ctx, lambda r: eval_args(i + 1, acc + [r]))
 
         def eval_kw(j, acc, kw):
